@@ -290,11 +290,46 @@ fn small_cases(tier: Tier) -> Vec<SimCase> {
     out
 }
 
+/// Fault-free long runs: every supported cell from initial sequences that make the sequence
+/// numbers wrap within the run, over paths whose round sizes do not tile the 512-wide window.
+/// Same oracle (exactly n rounds, in order, Ok).
+fn long_cases(tier: Tier) -> Vec<SimCase> {
+    let mut out = vec![];
+    for cell in super::c02::supported_cells() {
+        let shapes: &[(u16, usize, u32)] = match tier {
+            // (initial sequence, hops, rounds)
+            Tier::Quick => &[(33434, 30, 40), (64511, 254, 8), (62500, 100, 36)],
+            Tier::Thorough => &[(33434, 30, 120), (0, 254, 264), (64511, 254, 12), (62500, 100, 60), (64000, 37, 200), (1, 5, 400)],
+        };
+        for &(init, hops, rounds) in shapes {
+            let mut cfg = cell.clone();
+            cfg.initial_sequence = init;
+            cfg.first_ttl = 1;
+            cfg.max_ttl = 254;
+            cfg.max_inflight = 255;
+            cfg.max_rounds = rounds;
+            cfg.read_timeout_ns = 1000;
+            cfg.min_round_ns = 0;
+            cfg.max_round_ns = 400_000;
+            cfg.grace_ns = 0;
+            cfg.tcp_connect_timeout_ns = 3000;
+            cfg.packet_size = if cfg.v6 { 64 } else { 40 } + (init % 200);
+            let mut world = WorldSpec::simple(hops);
+            for h in &mut world.paths[0].hops {
+                h.delay_ns = 200;
+            }
+            world.target.node.delay_ns = 200;
+            out.push(SimCase { cfg, world });
+        }
+    }
+    out
+}
+
 pub fn check() -> PropertyCheck {
     PropertyCheck {
         id: "C09",
         level: "fault_enumeration",
-        rule: "fault scripts = (stage of the dispatch or receive path, n-th call of that stage, errno). random: 0..4 faults over generated configurations and worlds; enumerated: for each of the 36 supported cells with max-ttl 3 and 2 rounds, every single fault at the first 6 calls of every send stage x 7 errnos and at 7 positions of every receive stage, and every pair (non-fatal first fault x later fault; every 7th pair in the quick tier). Oracle = exactly n publishes numbered in order and Ok when no fatal fault was hit; a fatal fault ends the run with that error, leaves a prefix of rounds, stops all socket activity and shows in snapshot().error(); transient -> Failed for that probe only; TCP address-in-use -> Skipped + same TTL under the next sequence. Non-trivial = at least one scripted fault was hit; distinct by (cell, faults hit, rounds, failed, skipped, edge)",
+        rule: "fault scripts = (stage of the dispatch or receive path, n-th call of that stage, errno). random: 0..4 faults over generated configurations and worlds; enumerated: for each of the 36 supported cells with max-ttl 3 and 2 rounds, every single fault at the first 6 calls of every send stage x 7 errnos and at 7 positions of every receive stage, and every pair (non-fatal first fault x later fault; every 7th pair in the quick tier). Oracle = exactly n publishes numbered in order and Ok when no fatal fault was hit; a fatal fault ends the run with that error, leaves a prefix of rounds, stops all socket activity and shows in snapshot().error(); transient -> Failed for that probe only; TCP address-in-use -> Skipped + same TTL under the next sequence. round-count-long: fault-free runs of every supported cell long enough for the sequence numbers to wrap (round sizes 6 / 31 / 101 / 254 against the 512-wide window). Non-trivial = at least one scripted fault was hit (or a long run completed); distinct by (cell, faults hit, rounds, failed, skipped, edge)",
         assumptions: vec![
             "which errno is transient per cell is tabulated from the ErrorMapper call sites (ipv4.rs / ipv6.rs) and stated in oracle::is_transient",
             "malformed inbound packets are C04's domain and are not part of 'whatever responses the network returns'",
@@ -312,6 +347,12 @@ pub fn check() -> PropertyCheck {
                 name: "fault-scripts-enumerated",
                 exhaustive_note: Some("all single faults and (thorough: all; quick: every 7th) pairs at the listed positions for the small configuration of every supported cell"),
                 cases: small_cases,
+                test,
+            }),
+            Box::new(Enumerated {
+                name: "round-count-long",
+                exhaustive_note: None,
+                cases: long_cases,
                 test,
             }),
         ],
